@@ -127,24 +127,23 @@ theorem mwpm_corrects_of_chain_bound_partial (S L : List BVec) (n d : Nat)
 /-
 PROVED in Props/C14/Chain.lean (formerly stated only): the T-join lemma `chain_induces_matching_generic`
 and its boundary form `chain_induces_matching_boundary_generic`, `chain_induces_matching_toric`,
-`chain_induces_matching_planar` (nearest-virtual-plaquette graph with the extra node), and
-`toric_mwpm_corrects`, `planar_mwpm_corrects`, `planar_decode_corrects` — all sizes, ANY
-minimum-weight perfect matchings; `ChainBound` is derived there, not assumed.
+`chain_induces_matching_planar` (nearest-virtual-plaquette graph with the extra node),
+`toric_mwpm_corrects`, `planar_mwpm_corrects`, `planar_decode_corrects` (every external fact a named
+hypothesis; `ChainBound` derived, not assumed) and `toric_mwpm_corrects_all_sizes`,
+`planar_mwpm_corrects_all_sizes`, in which the C07 / C08 / C15 hypotheses are discharged from the
+proved theorems of those properties (d = min R C for every R, C ≥ 2) — all for ANY minimum-weight
+perfect matchings.
 
-STATED, NOT PROVED (what still separates those theorems from a hypothesis-free statement; each is a
-fact of another property and enters them as a named hypothesis):
+STATED, NOT PROVED (the one remaining hypothesis of the `…_all_sizes` theorems):
 
-  * h_distance at d = min R C for all sizes (C08): `DistHyp (stabilizers R C) logicals n (min R C)` —
-    Props/C08.lean has the upper bound (`distance_attained_*`) for all sizes and the lower bound only
-    for small sizes (`distance_*_small_bounded`).
   * h_min… from C13: `MinWeightPM` / `MinWeightPMPlanar` for the matching returned by
     `mwpmNetworkx oracle` on the graph built from `toricWeightedEdges` / `planarWeightedEdges` follows
-    from `C13.mwpmNetworkx_min_weight_perfect` under `NxContract`, through the driver's encoding of
-    plaquette indices as graph nodes (C13 speaks of `IsPM` / `weightBy` over `Node` with `Rat`
-    weights, C14 of `isPerfectMatchingOfGraph` / `cost` over index pairs); the translation is not
-    formalised.
-  * h_path_syndrome, h_path_weight (C15), h_css (C07) are proved in Props/C15/{Toric,Planar}.lean and
-    Lemmas/Lattice; they are cited, not re-proved, here.
+    from `C13.mwpmNetworkx_min_weight_perfect` under `NxContract` (the external networkx contract),
+    through the driver's encoding of plaquette indices as graph nodes (C13 speaks of `IsPM` /
+    `weightBy` over `Node` with `Rat` weights, C14 of `isPerfectMatchingOfGraph` / `cost` over index
+    pairs with `Nat` weights); that translation is not formalised:
+      ∀ oracle, NxContract oracle → ∀ R C ≥ 2, ∀ ds,
+        MinWeightPMPlanar R C t ds (decode (mwpmNetworkx oracle (encode (planarWeightedEdges R C t ds))))
   Meanwhile the harness sweeps every error with |X|,|Z| ≤ t for all sizes ≤ 5×5
   (4×5 and smaller exhaustively; see harness/qv/props/c14.py).
 -/
